@@ -12,7 +12,13 @@ open Lean Rpft Rpft.Uuid
 inductive UId
   | given (s : Str)
   | inv (n : Nat)
+  /-- marker of `uuid.staged`: the object was there at the previous validation -/
+  | kept
   deriving DecidableEq, Repr
+
+def UId.isKept : UId → Bool
+  | .kept => true
+  | _ => false
 
 abbrev UName := Option Str
 
@@ -20,6 +26,7 @@ def uuidUidJ : Option UId → Json
   | none => Json.null
   | some (.given s) => Json.mkObj [("g", strJ s)]
   | some (.inv n) => Json.mkObj [("i", Json.num n)]
+  | some .kept => Json.mkObj [("kept", Json.bool true)]
 
 def nameJ : UName → Json := optStrJ
 
@@ -45,6 +52,7 @@ def asGiven (j : Json) : Except String (Option UId) :=
   match j with
   | Json.null => pure none
   | Json.str s => pure (if s.isEmpty then none else some (.given s.toList))
+  | Json.obj _ => pure (some .kept)   -- `{"kept": true}`
   | _ => throw "uuid"
 
 def asKind (j : Json) : Except String Kind :=
@@ -159,8 +167,50 @@ def rerender : Nat → Out UName UId → List Json
     | .ok out' => Json.mkObj [("ok", outJ out')] :: rerender k out'
     | .error e => [Json.mkObj [("err", errJ e)]]
 
+/-- `k` further `validate()` calls; also hands back the container's last state -/
+def rerenderSt : Nat → Out UName UId → List Json × Option (Out UName UId)
+  | 0, out => ([], some out)
+  | k + 1, out =>
+    match runOccs UId.inv out.st out.next (reOccs out) with
+    | .ok out' => let r := rerenderSt k out'; (Json.mkObj [("ok", outJ out')] :: r.1, r.2)
+    | .error e => ([Json.mkObj [("err", errJ e)]], none)
+
+/-- the stages of a history after the first: `(pre, grown container, number of validations)` -/
+def runStages : Out UName UId → List (List (PreItem UName UId) × Container UName UId × Nat) → List Json
+  | _, [] => []
+  | prev, (pre, c, k) :: rest =>
+    match runStage UId.inv UId.isKept prev pre c with
+    | .error e => [Json.mkObj [("err", errJ e)]]
+    | .ok out =>
+      let r := rerenderSt (k - 1) out
+      Json.mkObj [("ok", outJ out)] :: r.1 ++
+        (match r.2 with
+         | some last => runStages last rest
+         | none => [])
+
+def asStage (j : Json) : Except String (List (PreItem UName UId) × Container UName UId × Nat) := do
+  let pre ← (← getArr j "pre").toList.mapM asPre
+  let c ← asContainer (← j.getObjVal? "container")
+  let k := match getNat j "renders" with | .ok n => n | .error _ => 1
+  pure (pre.flatten, c, k)
+
 def handleUuid (op : String) (j : Json) : Except String Json := do
   match op with
+  | "uuid.staged" => do
+      -- a container built in stages, validated after every stage (`renders` times each)
+      let stages ← (← getArr j "stages").toList.mapM asStage
+      match stages with
+      | [] => throw "no stage"
+      | (pre, c, k) :: rest =>
+        let rs := match run UId.inv pre c with
+          | .error e => [Json.mkObj [("err", errJ e)]]
+          | .ok out =>
+            let r := rerenderSt (k - 1) out
+            Json.mkObj [("ok", outJ out)] :: r.1 ++
+              (match r.2 with
+               | some last => runStages last rest
+               | none => [])
+        pure (Json.mkObj [("renders", Json.arr rs.toArray)])
   | "uuid.run" => do
       let pre ← (← getArr j "pre").toList.mapM asPre
       let c ← asContainer (← j.getObjVal? "container")
